@@ -97,8 +97,8 @@ func abiEncode(vals ...abiVal) []byte {
 	return append(head, tail...)
 }
 
-func U(n uint64) aUint     { return aUint{new(big.Int).SetUint64(n)} }
-func UB(n *big.Int) aUint  { return aUint{new(big.Int).Set(n)} }
+func U(n uint64) aUint    { return aUint{new(big.Int).SetUint64(n)} }
+func UB(n *big.Int) aUint { return aUint{new(big.Int).Set(n)} }
 func Addr20(b []byte) aAddr {
 	var a aAddr
 	if len(b) > 20 {
